@@ -216,6 +216,56 @@ func runC07(c *fw.Ctx, idx int) fw.Result {
 			}
 		}
 	}
+	// plain closest (no -n): the distance printed in each row is that of the row's own query and
+	// the returned target, also when two query records carry the same ID
+	if layout < 0 {
+		qs2 := append([]gen.FastaRec{}, qs...)
+		if len(qs2) >= 2 && r.Chance(0.4) {
+			k, j := r.Intn(len(qs2)), r.Intn(len(qs2))
+			if k != j {
+				qs2[j].ID, qs2[j].Desc = qs2[k].ID, qs2[k].Desc
+				res.Count("plain_runs_with_repeated_query_id", 1)
+			}
+		}
+		q2Text := gen.RenderFasta(qs2, gen.PickLineWidth(r, W))
+		pout, perr := run.Closest(q2Text, tText, measure, threads)
+		res.Evals++
+		pf := map[string]string{"query.fasta": q2Text, "target.fasta": tText, "observed.csv": pout}
+		pargv := []string{"closest", "-m", measure}
+		if perr != nil {
+			res.Fail("error-on-valid-input", "closest.Closest returned an error: "+perr.Error(), pf, pargv)
+			return res
+		}
+		tByID := map[string]gen.FastaRec{}
+		for _, t := range ts {
+			tByID[t.ID] = t
+		}
+		lines := strings.Split(strings.TrimSuffix(pout, "\n"), "\n")
+		if len(lines) != len(qs2)+1 || lines[0] != "query,closest,distance,SNPs" {
+			res.Fail("plain-rows", fmt.Sprintf("plain closest wrote %d lines for %d queries", len(lines), len(qs2)), pf, pargv)
+		} else {
+			for i, q := range qs2 {
+				f := strings.SplitN(lines[i+1], ",", 4)
+				if len(f) != 4 || f[0] != q.ID {
+					res.Fail("plain-rows", fmt.Sprintf("row %d is %q, expected the row of query %s", i+1, lines[i+1], q.ID), pf, pargv)
+					break
+				}
+				t, ok := tByID[f[1]]
+				if !ok {
+					res.Fail("plain-rows", fmt.Sprintf("row %d names the unknown target %q", i+1, f[1]), pf, pargv)
+					break
+				}
+				msg, skipped := checkPairDistance(measure, q.Seq, t.Seq, f[2])
+				if skipped {
+					continue
+				}
+				res.Count("plain_rows_compared_"+measure, 1)
+				if msg != "" {
+					res.Fail("plain-distance-"+measure, fmt.Sprintf("row %d (query %s, closest %s): %s", i+1, q.ID, t.ID, msg), pf, pargv)
+				}
+			}
+		}
+	}
 	// symmetry: swap the files (snp, raw)
 	if measure != "tn93" {
 		out2, err2 := run.ClosestN(len(qs), -1.0, tText, qText, measure, true, threads)
